@@ -141,7 +141,7 @@ func (w *World) rulesV4Score(out *[]Obligation) {
 	if bad > 0 && !w.normalized {
 		// the decomposition is stated over Score's locals: undo the two
 		// refactorings that move values out of locals (normalize.go) and retry
-		w2, notes, err := w.normalizedWorld("40", []string{"Score"})
+		w2, notes, err := w.normalizedWorld("40", []string{"Score", "macroVector"})
 		if err != nil {
 			w.Extra["v4_normalisation"] = "not applicable: " + err.Error()
 		}
